@@ -26,6 +26,20 @@ def check_names(run, okr, okm):
             allc = list(itertools.product(reps, repeat=n))
             k = 4000 if run.tier == 'quick' else 40000
             strings += rng.sample(allc, min(k, len(allc)))
+    # name characters from all over the tables, and code points whose low byte or low 16 bits
+    # alias a significant ASCII character (truncating casts, byte-wise comparisons)
+    wide = set()
+    for base in (0x3A, 0x2D, 0x2E, 0x5F, 0x30, 0x41, 0x61, 0x20, 0x3C):
+        for hi in (0x100, 0x400, 0x4E00, 0x10000, 0x2C00, 0xF900):
+            wide.add(hi + base)
+    ranges = [(0xC0, 0x2FF), (0x370, 0x1FFF), (0x2070, 0x218F), (0x2C00, 0x2FEF), (0x3001, 0xD7FF), (0xF900, 0xFDCF),
+              (0xFDF0, 0xFFFD), (0x10000, 0xEFFFF), (0x300, 0x36F), (0x203F, 0x2040)]
+    for lo, hi in ranges:
+        for _ in range(12 if run.tier == 'quick' else 60):
+            wide.add(rng.randint(lo, hi))
+        wide.update((lo, hi))
+    for c in sorted(wide):
+        strings += [(0x61, c, 0x62), (c, 0x61), (0x61, 0x3A, c), (c,)]
     # the reserved target in every letter case, with neighbours
     for w in ['xml', 'XML', 'xMl', 'Xml', 'xm', 'x', 'xmlx', 'xml:a', 'a:xml', 'xml-stylesheet', ':', 'a:', ':a', 'a:b:c', 'a::b', 'a:b', 'a:1', '1:a']:
         strings.append(tuple(ord(c) for c in w))
